@@ -206,6 +206,34 @@ theorem C05_checkers_ub_only_if_overflow (S T : IntTy) (hS : S ∈ IntTy.all) (h
     simp only [hw, ha] at h
     split at h <;> cases h
 
+/-- The same for everything an exact-count sanitizer build can observe inside the truncation
+checker — signed overflow *or* unsigned wrap-around (`truncCheckerEvent`): it happens only on inputs
+for which `will_conversion_overflow<T>` reports overflow.  (Tied to the real code value by value in
+the `exact` configuration of tools/p_c05.py.) -/
+theorem C05_checker_event_only_if_overflow (S T : IntTy) (hS : S ∈ IntTy.all) (hT : T ∈ IntTy.all)
+    (N D : Nat) (hN : 0 < N) (hD : 0 < D) (hc : compiles (IntTy.common S T) N D = true) (x : Int)
+    (hx : S.inRange x) (h : truncCheckerEvent S T N D x = true) :
+    ovfTII S T N D x = .ok true := by
+  have hC := common_mem S T hS hT
+  obtain ⟨b, hb, hiff⟩ := C05_overflow_iff_int S T hS hT N D hN hD hc x hx
+  cases b with
+  | true => exact hb
+  | false =>
+    exfalso
+    have hfit : StagesFit S T N D x := by
+      by_cases h' : StagesFit S T N D x
+      · exact h'
+      · have := hiff.2 h'; cases this
+    obtain ⟨hxC, hef, _⟩ := hfit
+    have hw : (IntTy.common S T).wrap x = x := wrap_of_inRange _ hC x hxC
+    obtain ⟨ha, _⟩ := applyMag_of_fits _ hC N D hD x hef
+    unfold truncCheckerEvent at h
+    simp only [hw, ha] at h
+    split at h <;> simp at h
+
+example : truncCheckerEvent i8 u32 4294967295 4294967294 (-2) = true ∧
+    truncCheckerEvent i32 i32 3 2 (2 ^ 30) = true ∧ truncCheckerEvent i32 i32 3 2 1000 = false := by decide
+
 /-! ## Floating → integral: the static_cast checkers on an arbitrary floating value
 
 All statements quantify over **every** `x : Flt` — NaN, ±inf and `fin q` for every rational `q`,
